@@ -14,6 +14,13 @@ STMTS = [
     "select 1", "select a from t", "select 'a;b' from t", 'select "x;y" from t', "select a /* ; */ from t",
     "select a -- ;\n from t", "insert into t values (1)", "delete from t where a = ';'", "select `a;b` from t",
     "update t set a = 1", "select a # ; c\n from t", "select f(a, 'it''s;') from t",
+    # one statement of every kind the grammar has (a routine, a block with inner semicolons, DDL, session statements):
+    # each must keep its own place in the list whatever stands next to it
+    "create procedure p() select 1", "create function f(a int) returns int return a + 1", "create table t (a int)",
+    "create view v as select 1", "drop table t", "begin select 1; select 2; end", "with w as (select 1) select * from w",
+    "select 1 union select 2", "explain select 1", "set @a = 1", "truncate table t", "declare x int", "create index i on t (a)",
+    "if a then select 1; end if", "use db", "commit", "alter table t add column b int",
+    "create procedure q() begin select 1; select 2; end", "merge into t using s on t.a = s.a when matched then delete",
 ]
 SEPS = [";", ";;", "; \n", " ;\n", ";\n;\n"]
 DELIMS = ["$$", "//", "|", "@@", "GO", "$$$"]
